@@ -114,6 +114,14 @@ MUTANTS = [
      "                        .map(|config| load_overrides(config, self.opt))\n                        .context(\"could not parse editorconfig\")\n                }\n                #[cfg(not(feature = \"editorconfig\"))]\n                Ok(self.default_configuration)\n            }\n        }\n    }\n\n    pub fn load_configuration_for_stdin",
      "                        .context(\"could not parse editorconfig\")\n                }\n                #[cfg(not(feature = \"editorconfig\"))]\n                Ok(self.default_configuration)\n            }\n        }\n    }\n\n    pub fn load_configuration_for_stdin",
      "config-not-overridden-last"),
+    ("walkup-root-inverted", "C15", "src/cli/config.rs",
+     "        match self.opt.search_parent_directories {\n            true => None,\n            false => Some(self.current_directory.to_path_buf()),",
+     "        match self.opt.search_parent_directories {\n            false => None,\n            true => Some(self.current_directory.to_path_buf()),",
+     "search-root-table"),
+    ("walkup-xdg-ungated", "C15", "src/cli/config.rs",
+     "                    if self.opt.search_parent_directories {\n                        if let Some(config) = self.search_config_locations()? {\n                            return Ok(Some(config));\n                        }\n                    }",
+     "                    if let Some(config) = self.search_config_locations()? {\n                        return Ok(Some(config));\n                    }",
+     "fallback-not-gated"),
     ("opt-space-calls", "C11", "src/context.rs",
      "        SpaceAfterFunctionNames::Never | SpaceAfterFunctionNames::Calls => {\n            Token::new(TokenType::spaces(0))",
      "        SpaceAfterFunctionNames::Never | SpaceAfterFunctionNames::Calls => {\n            Token::new(TokenType::spaces(1))",
